@@ -110,9 +110,16 @@ func Register[T any](el *EventLoop, callback EventHandler[T], opts ...HandlerOpt
 		el.handlers[t][i] = h
 	}
 
+	// the slot is reused by later registrations, so the returned function must free it only once:
+	// called again (as TimeoutContext does) it would otherwise remove whichever handler lives there by then.
+	unregistered := false
 	return func() {
 		el.mut.Lock()
 		defer el.mut.Unlock()
+		if unregistered {
+			return
+		}
+		unregistered = true
 		el.handlers[t][i].callback = nil
 	}
 }
